@@ -1,217 +1,9 @@
-(* C16 and the text sub-codecs of C17: base-36 round trip (proved, not
-   assumed), zone offsets through time's binary form, the gob round trip over
-   the layouts regenerated from the Go source. *)
-From Sessions Require Import Model.Base Model.Codec Gen.Layout Proofs.BaseLemmas.
+(* C16: the gob round trip over the layouts regenerated from the Go source. *)
+From Sessions Require Import Model.Base Model.Codec Gen.Layout Proofs.BaseLemmas Proofs.CodecText Proofs.CodecDefs.
 From Coq Require Import Lia ZifyBool ZifyN ZifyNat.
 Local Open Scope N_scope.
 
-(* ------------------------------------------------ FormatUint / ParseUint *)
-
-Lemma char_digit_digit_char (d : N) : d < 36 -> char_digit (digit_char d) = Some d.
-Proof.
-  intro Hd. unfold digit_char, char_digit, in_rng.
-  destruct (d <? 10) eqn:H10.
-  - replace ((48 <=? 48 + d) && (48 + d <=? 57)) with true by lia.
-    f_equal. lia.
-  - replace ((48 <=? 87 + d) && (87 + d <=? 57)) with false by lia.
-    replace ((97 <=? 87 + d) && (87 + d <=? 122)) with true by lia.
-    f_equal. lia.
-Qed.
-
-Lemma digit_char_ascii (d : N) : d < 36 -> digit_char d < 128.
-Proof. intro Hd. unfold digit_char. destruct (d <? 10); lia. Qed.
-
-(* value of a digit string, most significant first *)
-Definition eval_digits (r a : N) (ds : list N) : N := fold_left (fun x d => x * r + d) ds a.
-
-Lemma eval_digits_app r a ds d : eval_digits r a (ds ++ [d]) = eval_digits r a ds * r + d.
-Proof. unfold eval_digits. rewrite fold_left_app. reflexivity. Qed.
-
-Lemma eval_digits_ge r a ds : 1 <= r -> a <= eval_digits r a ds.
-Proof.
-  intro Hr. revert a. induction ds as [|d ds IH]; intro a; cbn [eval_digits fold_left].
-  - lia.
-  - specialize (IH (a * r + d)). unfold eval_digits in IH. nia.
-Qed.
-
-Lemma digits_fuel_spec (fuel : nat) (r n : N) (acc : list N) :
-  2 <= r -> n < 2 ^ N.of_nat fuel -> fuel <> O ->
-  exists ds, digits_fuel fuel r n acc = ds ++ acc /\ eval_digits r 0 ds = n /\
-             Forall (fun d => d < r) ds /\ ds <> [].
-Proof.
-  intros Hr. revert n acc. induction fuel as [|f IH]; intros n acc Hn Hf; [congruence|].
-  cbn [digits_fuel].
-  assert (Hmod : n mod r < r) by (apply N.mod_lt; lia).
-  destruct (n / r =? 0) eqn:Hq.
-  - exists [n mod r]. repeat split.
-    + cbn. apply N.eqb_eq in Hq. assert (n < r) by (apply N.div_small_iff; [lia | exact Hq]).
-      rewrite N.mod_small by assumption. reflexivity.
-    + constructor; [assumption | constructor].
-    + discriminate.
-  - apply N.eqb_neq in Hq. assert (Hq' : n / r <> 0) by exact Hq.
-    assert (Hlt : n / r < 2 ^ N.of_nat f).
-    { replace (N.of_nat (S f)) with (N.succ (N.of_nat f)) in Hn by lia.
-      rewrite N.pow_succ_r' in Hn.
-      apply N.div_lt_upper_bound; [lia|].
-      assert (2 * 2 ^ N.of_nat f <= r * 2 ^ N.of_nat f) by (apply N.mul_le_mono_r; lia). lia. }
-    assert (Hf' : f <> O).
-    { intro E. subst f. cbn in Hlt. set (q := n / r) in *. lia. }
-    destruct (IH (n / r) (n mod r :: acc) Hlt Hf') as [ds [Heq [Hev [Hall Hne]]]].
-    exists (ds ++ [n mod r]). repeat split.
-    + rewrite Heq. rewrite <- app_assoc. reflexivity.
-    + rewrite eval_digits_app, Hev. rewrite N.mul_comm. symmetry. apply N.div_mod. lia.
-    + apply Forall_app. split; [assumption | constructor; [assumption | constructor]].
-    + intro E. apply app_eq_nil in E. destruct E; discriminate.
-Qed.
-
-Lemma log2_fuel (n : N) : n < 2 ^ N.of_nat (S (N.to_nat (N.log2 n))).
-Proof.
-  replace (N.of_nat (S (N.to_nat (N.log2 n)))) with (N.succ (N.log2 n)) by lia.
-  destruct n as [|p]; [cbn; lia|].
-  apply N.log2_spec. lia.
-Qed.
-
-Lemma format_radix_digits (r n : N) :
-  2 <= r ->
-  exists ds, format_radix r n = map digit_char ds /\ eval_digits r 0 ds = n /\
-             Forall (fun d => d < r) ds /\ ds <> [].
-Proof.
-  intro Hr. unfold format_radix.
-  destruct (digits_fuel_spec (S (N.to_nat (N.log2 n))) r n [] Hr (log2_fuel n)) as [ds [Heq H]];
-    [discriminate|].
-  exists ds. rewrite Heq, app_nil_r. split; [reflexivity | exact H].
-Qed.
-
-Lemma parse_chars_digits (r bound : N) (ds : list N) (a : N) :
-  1 <= r -> r <= 36 -> Forall (fun d => d < r) ds -> eval_digits r a ds < bound ->
-  parse_chars r bound a (map digit_char ds) = Some (eval_digits r a ds).
-Proof.
-  intros Hr1 Hr. revert a. induction ds as [|d ds IH]; intros a Hall Hev.
-  - reflexivity.
-  - inversion Hall as [|? ? Hd Hall']; subst.
-    cbn [map parse_chars]. rewrite char_digit_digit_char by lia.
-    replace (r <=? d) with false by lia.
-    assert (Hge := eval_digits_ge r (a * r + d) ds Hr1).
-    change (eval_digits r a (d :: ds)) with (eval_digits r (a * r + d) ds) in *.
-    replace (bound <=? a * r + d) with false by lia.
-    apply IH; assumption.
-Qed.
-
-Lemma parse_chars_bound (r bound : N) (s : bytes) (a n : N) :
-  a < bound -> parse_chars r bound a s = Some n -> n < bound.
-Proof.
-  revert a. induction s as [|c s IH]; intros a Ha H; cbn [parse_chars] in H.
-  - injection H as <-. exact Ha.
-  - destruct (char_digit c) as [d|]; [|discriminate].
-    destruct (r <=? d); [discriminate|].
-    destruct (bound <=? a * r + d) eqn:Hb; [discriminate|].
-    apply (IH (a * r + d)); [lia | exact H].
-Qed.
-
-Lemma parse_format_radix (r bits n : N) :
-  radix_ok r = true -> 0 < bits -> bits <= 64 -> n < 2 ^ bits ->
-  parse_radix r bits (format_radix r n) = Some n.
-Proof.
-  intros Hr Hb0 Hb Hn. unfold radix_ok in Hr.
-  destruct (format_radix_digits r n) as [ds [Heq [Hev [Hall Hne]]]]; [lia|].
-  unfold parse_radix. rewrite Heq.
-  replace (negb (radix_ok r) || (64 <? bits)) with false by (unfold radix_ok; lia).
-  replace (bits =? 0) with false by lia.
-  destruct ds as [|d ds]; [congruence|].
-  cbn [map]. change (digit_char d :: map digit_char ds) with (map digit_char (d :: ds)).
-  rewrite parse_chars_digits; [congruence | lia | lia | assumption | rewrite Hev; assumption].
-Qed.
-
-Lemma parse_radix_bound (r bits : N) (s : bytes) (n : N) :
-  parse_radix r bits s = Some n -> n < 2 ^ (if bits =? 0 then 64 else bits).
-Proof.
-  unfold parse_radix. destruct (negb (radix_ok r) || (64 <? bits)); [discriminate|].
-  destruct s as [|c s]; [discriminate|].
-  apply parse_chars_bound.
-  assert (2 ^ (if bits =? 0 then 64 else bits) <> 0) by (apply N.pow_nonzero; lia). lia.
-Qed.
-
-Lemma format_radix_ascii (r n : N) : radix_ok r = true -> all_ascii (format_radix r n) = true.
-Proof.
-  intro Hr. unfold radix_ok in Hr.
-  destruct (format_radix_digits r n) as [ds [Heq [_ [Hall _]]]]; [lia|].
-  rewrite Heq. unfold all_ascii. rewrite forallb_forall. intros c Hc.
-  apply in_map_iff in Hc as [d [<- Hd]].
-  rewrite Forall_forall in Hall. specialize (Hall d Hd).
-  assert (digit_char d < 128) by (apply digit_char_ascii; lia). lia.
-Qed.
-
-(* C17, the fingerprint sub-codec *)
-Lemma base36_roundtrip_lemma :
-  (forall n, n < 2 ^ 64 -> parse36 (format36 n) = Some n) /\
-  (forall s n, parse36 s = Some n -> n < 2 ^ 64).
-Proof.
-  split.
-  - intros n Hn. apply parse_format_radix; [reflexivity | lia | lia | exact Hn].
-  - intros s n H. apply parse_radix_bound in H. exact H.
-Qed.
-
-(* a digit string that denotes 2^64 or more is refused *)
-Lemma parse_chars_overflow (r bound : N) (ds : list N) (a : N) :
-  1 <= r -> r <= 36 -> Forall (fun d => d < r) ds -> bound <= eval_digits r a ds -> a < bound ->
-  ds <> [] -> parse_chars r bound a (map digit_char ds) = None.
-Proof.
-  intros Hr1 Hr. revert a. induction ds as [|d ds IH]; intros a Hall Hev Ha Hne; [congruence|].
-  inversion Hall as [|? ? Hd Hall']; subst.
-  cbn [map parse_chars]. rewrite char_digit_digit_char by lia.
-  replace (r <=? d) with false by lia.
-  change (eval_digits r a (d :: ds)) with (eval_digits r (a * r + d) ds) in Hev.
-  destruct (bound <=? a * r + d) eqn:Hb; [reflexivity|].
-  destruct ds as [|d' ds'].
-  - cbn in Hev. lia.
-  - apply IH; [assumption | assumption | lia | discriminate].
-Qed.
-
-Lemma parse36_rejects_large (ds : list N) :
-  Forall (fun d => d < 36) ds -> 2 ^ 64 <= eval_digits 36 0 ds ->
-  parse36 (map digit_char ds) = None.
-Proof.
-  intros Hall Hev. unfold parse36, parse_radix.
-  change (negb (radix_ok 36) || (64 <? 64)) with false. cbv iota.
-  destruct ds as [|d ds]; [reflexivity|].
-  change (64 =? 0) with false. cbv iota.
-  change (map digit_char (d :: ds)) with (digit_char d :: map digit_char ds).
-  change (digit_char d :: map digit_char ds) with (map digit_char (d :: ds)).
-  apply parse_chars_overflow; [lia | lia | assumption | assumption | | discriminate].
-  assert (2 ^ 64 <> 0) by (apply N.pow_nonzero; lia). lia.
-Qed.
-
-Example base36_max :
-  format36 18446744073709551615 = [51;119;53;101;49;49;50;54;52;115;103;115;102] /\
-  parse36 [51;119;53;101;49;49;50;54;52;115;103;115;102] = Some 18446744073709551615 /\
-  parse36 [51;119;53;101;49;49;50;54;52;115;103;115;103] = None /\
-  parse36 [] = None /\ parse36 [45;49] = None /\ parse36 [90] = Some 35.
-Proof. repeat split; vm_compute; reflexivity. Qed.
-
-(* ---------------------------------------- zone offsets in time's binary form *)
-
-Lemma gob_off_back_exact (off : Z) : gob_off_exact off = true -> gob_off_back off = off.
-Proof.
-  unfold gob_off_exact, gob_off_ok, gob_off_back. intro H.
-  assert (Hqr := Z.quot_rem' off 60).
-  assert (Hr : (0 <= Z.rem off 60 < 60)%Z).
-  { split; [lia|]. assert (Hb := Z.rem_bound_abs off 60). lia. }
-  rewrite Z.mod_small by lia.
-  replace (Z.quot off 60 * 60 + Z.rem off 60)%Z with off by lia.
-  destruct (off =? -60)%Z eqn:E; [|reflexivity].
-  assert (off = (-60)%Z) by lia. subst off. vm_compute in H. discriminate.
-Qed.
-
-Lemma gob_time_exact (t : gtime) : gob_off_exact (t_off t) = true -> gob_time t = Ok t.
-Proof.
-  intro H. unfold gob_time. rewrite (gob_off_back_exact _ H).
-  unfold gob_off_exact in H. apply andb_true_iff in H as [-> _]. destruct t; reflexivity.
-Qed.
-
 (* ------------------------------------------------------------------- gob *)
-
-Lemma gob_pinned_lemma : gob_version = 1 /\ gob_enc = layout_v1 /\ gob_dec = layout_v1.
-Proof. repeat split; reflexivity. Qed.
 
 Local Arguments gob_time : simpl never.
 
@@ -259,15 +51,6 @@ Proof.
   intros H E. unfold gob_roundtrip. rewrite E. unfold layout_v1.
   cbn [gob_encode gob_field_val rbind]. unfold gob_time. rewrite H. reflexivity.
 Qed.
-
-Definition ex_time : gtime := mkTime 1577934245 6 20700.       (* 2020-01-02 03:04:05.000000006 +05:45 *)
-Definition ex_user : cuser := mkUser (DInt 42) 1.
-Definition ex_sess : csess :=
-  mkSess ex_time (mkTime (-62135596800) 0 (-12600)) [49;46;50;46;51;46;52;58;53] 18446744073709551615
-         [] (Some ex_user) (Some [([107], DStr [118]); ([110], DInt 7)]).
-(* the record RegenerateID leaves under the old ID: a reference, no user, nil data *)
-Definition ex_placeholder : csess :=
-  mkSess ex_time ex_time [49;46;50;46;51;46;52;58;53] 77 [110;101;119;45;105;100] None None.
 
 Example gob_roundtrip_nonvacuous :
   gob_dom ex_sess = true /\ gob_dom ex_placeholder = true /\
